@@ -174,7 +174,9 @@ impl CodePage {
         if *self == CodePage::UsAscii {
             ascii_decode(bytes)
         } else {
-            self.encoding().decode(bytes).0.into_owned()
+            // No BOM sniffing: the bytes are in this code page, whatever they
+            // start with.
+            self.encoding().decode_without_bom_handling(bytes).0.into_owned()
         }
     }
 
